@@ -33,7 +33,10 @@ def build(tier):
 def gen_cases(tier, seed):
     rng = random.Random(seed)
     cases = []
-    # fixed corpus first: the F4 witness and its neighbours
+    # F21 (repaired in /repo, b4823ff): LZ4F's hint counted the block checksum twice; the single-thread loop then read 4 bytes
+    # beyond a frame with block checksums and without content checksum and dropped them: the next frame was lost
+    first = [{"kinds": "LL", "sseed": 2100 + i, "kind": "f21", "bs": bs} for i, bs in enumerate(("-B7", "-B4"))]
+    # fixed corpus: the F4 witness and its neighbours
     for kinds in ["LG", "GL", "LSG", "SLG", "GLG", "LS", "SLS", "G", "L", "S", "LLL", "GGG"]:
         cases.append({"kinds": kinds, "sseed": 1000 + len(cases), "kind": "corpus"})
     maxall = {"quick": 2, "search": 3, "thorough": 4}[tier]
@@ -53,7 +56,7 @@ def gen_cases(tier, seed):
     for _ in range(nrand):
         l = rng.choice([3, 3, 4, 5, 6])
         cases.append({"kinds": "".join(rng.choice("LLGGSST") for _ in range(l)), "sseed": rng.randrange(1 << 48), "kind": "random"})
-    return cases
+    return first + cases
 
 def worker_init(ctx):
     st = {"ctx": ctx, "spec": Oracle(name="block"), "rd": RunDir("c15")}
@@ -84,6 +87,18 @@ def run_case(st, case):
         pay = 4 + case["k"] * (4 << 20) + case["delta"] - len(base["data"]) - 8
         skip = iolib.le32(0x184D2A50 + rng.randrange(16)) + iolib.le32(pay) + rng.randbytes(pay)
         s = {"data": lead["data"] + base["data"] + skip, "content": lead["content"] + base["content"]}
+    elif case["kind"] == "f21":
+        data = b""; content = b""
+        for n in (300000, 100000):
+            raw = bytearray()
+            while len(raw) < n:
+                raw += rng.randbytes(200) + b"A" * 200
+            raw = bytes(raw[:n])
+            rc, out, err = run_cli(ctx["ST"], [case["bs"], "-BX", "--no-frame-crc", "-c", "-q"], stdin_bytes=raw)
+            if rc != 0:
+                raise RuntimeError("lz4 failed to compress: " + err[-200:])
+            data += out; content += raw
+        s = {"data": data, "content": content}
     elif case["kind"] == "legbig":
         raw = rng.randbytes((8 << 20) + case["extra"])
         rc, out, err = run_cli(ctx["ST"], ["-l", "-c"], stdin_bytes=raw)
